@@ -250,7 +250,8 @@ def run_sequence(case, ctx):
         def worker(i):
             def run():
                 for item in plan[i::n]:
-                    answers[item[0]] = answer(item)
+                    # (called once per injection regime: every answer is kept and judged, a later pass must not paint over an earlier one)
+                    answers.setdefault(item[0], []).append(answer(item))
             return run
         res, errs, stats = interleave.run_threads_regimes([worker(i) for i in range(n)], "%s/%s" % (ctx.seed, case["id"]))
         counters["yields_injected"] = stats["yields_injected"]
@@ -258,11 +259,14 @@ def run_sequence(case, ctx):
         for e in errs:
             if e is not None:
                 counters["thread_errors"] = counters.get("thread_errors", 0) + 1
+    todo = []
     for step, (eid, decl, cat), ident, uid in plan:
+        if case.get("threads"):
+            todo.extend((step, (eid, decl, cat), ident, uid, r_) for r_ in answers.get(step, []))
+        else:
+            todo.append((step, (eid, decl, cat), ident, uid, answer(plan[step])))
+    for step, (eid, decl, cat), ident, uid, resp in todo:
         order.append(eid.split("//")[1].split(".")[0])
-        resp = answers[step] if case.get("threads") else answer(plan[step])
-        if case.get("threads") and step not in answers:
-            continue
         if resp is None:
             counters["idp_raised"] = counters.get("idp_raised", 0) + 1
             continue
